@@ -47,7 +47,7 @@ theorem byteSize_eq_spec (s : Str) : byteSize s = DTSpec.byteSize s := by
   unfold byteSize DTSpec.byteSize suffixMult DTSpec.suffixed
   rw [byteSizeTbl_val]
   show (match suffixLoop (lower s) 2 _ with | some r => r | none => (integer (lower s)).map (· * 1)) = _
-  simp only [suffixLoop, List.find?_cons, List.find?_nil, map_mul_one, integer_eq]
+  simp only [suffixLoop, sufN, preN, (by decide : (2 : Nat) ≠ 0), ↓reduceIte, List.find?_cons, List.find?_nil, map_mul_one, integer_eq]
   generalize lastN (lower s) 2 = x
   by_cases h1 : x = ['k', 'b']
   · simp [h1]
@@ -64,7 +64,7 @@ theorem timeInterval_eq_spec (s : Str) : timeInterval s = DTSpec.timeInterval s 
   unfold timeInterval DTSpec.timeInterval suffixMult DTSpec.suffixed
   rw [timeIntervalTbl_val]
   show (match suffixLoop (lower s) 1 _ with | some r => r | none => (integer (lower s)).map (· * 1)) = _
-  simp only [suffixLoop, List.find?_cons, List.find?_nil, map_mul_one, integer_eq]
+  simp only [suffixLoop, sufN, preN, (by decide : (1 : Nat) ≠ 0), ↓reduceIte, List.find?_cons, List.find?_nil, map_mul_one, integer_eq]
   generalize lastN (lower s) 1 = x
   by_cases h1 : x = ['s']
   · simp [h1, map_id']
